@@ -90,6 +90,12 @@ func (b *c12Backend) enter(ctx context.Context, method string, ds []digest.Diges
 func (b *c12Backend) fail(op *c12Op, call *c12Call, code codes.Code, what string) error {
 	call.ErrTag = fmt.Sprintf("c12-%s-op%d-slot%d", what, op.ID, call.Slot)
 	call.Err = status.Error(code, call.ErrTag)
+	if what == "fault" && code == codes.DeadlineExceeded && op.ID%2 == 1 {
+		// what a backend returns that does "<-ctx.Done(); return ctx.Err()":
+		// a plain Go error wrapping the context error, not a gRPC status
+		call.Err = fmt.Errorf("%s: %w", call.ErrTag, context.DeadlineExceeded)
+		b.w.c.Count("fault_bare_context_error", 1)
+	}
 	return call.Err
 }
 
@@ -124,6 +130,13 @@ func (b *c12Backend) serve(op *c12Op, call *c12Call, d digest.Digest, data []byt
 		errAt := f.ErrAt
 		if errAt > len(data) {
 			errAt = len(data)
+		}
+		if (op.ID+f.ErrAt)%2 == 1 {
+			// an io.Reader-backed object whose failing Read hands out bytes
+			// together with the error
+			rsrc := sim.NewReaderSource(fmt.Sprintf("shard#%d.op%d", call.Slot, op.ID), &sim.SrcScript{Data: data, Cuts: cuts, ErrAt: errAt, Err: err, ErrWithData: true})
+			b.w.c.Count("fault_get_stream_error_with_data", 1)
+			return buffer.NewCASBufferFromReader(d, rsrc, buffer.BackendProvided(func(bool) {}))
 		}
 		src := sim.NewChunkSource(fmt.Sprintf("shard#%d.op%d", call.Slot, op.ID), &sim.SrcScript{Data: data, Cuts: cuts, ErrAt: errAt, Err: err})
 		return buffer.NewCASBufferFromChunkReader(d, src, buffer.BackendProvided(func(bool) {}))
